@@ -324,6 +324,36 @@ pub fn run(tier: Tier, seed: u64) -> i32 {
         judge(seed, &m, &[], "sps_bytes", l);
     });
 
+    // SPS / PPS leading bytes: every 4-byte prefix over {00, 01, 67, ff} (start-code look-alikes, all-zero, all-ones),
+    // on the SPS, on the PPS and on both, bare (length 4) and followed by a tail; and every first byte 0..255
+    let mut prefixes: Vec<(Vec<u8>, u8)> = vec![];
+    for code in 0..256usize {
+        let p: Vec<u8> = (0..4).map(|i| [0u8, 1, 0x67, 0xff][(code >> (2 * i)) & 3]).collect();
+        for place in 0..3u8 {
+            prefixes.push((p.clone(), place));
+            let mut q = p.clone();
+            q.extend([0x67, 100, 0, 40, 0xd9]);
+            prefixes.push((q, place));
+        }
+    }
+    for b0 in 0..=255u8 {
+        for place in 0..2u8 {
+            prefixes.push((vec![b0, 66, 0xc0, 30, 0xd9, 0], place));
+        }
+    }
+    enumerations.push(json!({"name": "sps_pps_leading_bytes", "configs": prefixes.len(), "histories_each": 1}));
+    sweep(prefixes, &mut l, |(p, place), l| {
+        let mut t = TrackSpec::new(Kind::Avc, 1000);
+        if *place == 0 || *place == 2 {
+            t.sps = p.clone();
+        }
+        if *place == 1 || *place == 2 {
+            t.pps = p.clone();
+        }
+        let m = MovieSpec::new(1000, vec![t]);
+        judge(seed, &m, &two_histories(1000)[1], "sps_pps_leading_bytes", l);
+    });
+
     // SPS / PPS lengths
     let mut lens = vec![];
     for sl in [4usize, 5, 255, 256, 65535] {
